@@ -37,6 +37,7 @@ class Parser(Emitter):
         if isinstance(result, formulaserror.XLError):
             error = str(formulaserror.from_message(result))
             result = None
+        formulaserror.clear_tracebacks()
         return {'result': result, 'error': error}
 
     def set_function(self, name, f):
